@@ -9,16 +9,19 @@ Proof. destruct a, b; cbn; split; auto; discriminate. Qed.
 
 Lemma job_eqb_eq a b : job_eqb a b = true <-> a = b.
 Proof.
+  destruct a, b; unfold job_eqb; cbn.
   split.
-  - unfold job_eqb. intros H.
-    repeat match goal with H : _ && _ = true |- _ => apply andb_true_iff in H; destruct H as (H & ?) end.
+  - intros H.
+    repeat (apply andb_true_iff in H; let H' := fresh "E" in destruct H as (H & H')).
     repeat match goal with
-           | H : eqb_bool _ _ = true |- _ => apply eqb_bool_eq in H
-           | H : (_ =? _) = true |- _ => apply Z.eqb_eq in H
+           | H : eqb_bool _ _ = true |- _ => apply (proj1 (eqb_bool_eq _ _)) in H; subst
+           | H : (_ =? _) = true |- _ => apply (proj1 (Z.eqb_eq _ _)) in H; subst
            end.
-    destruct a, b; cbn in *; congruence.
-  - intros ->. unfold job_eqb.
-    repeat (apply andb_true_iff; split); try apply Z.eqb_refl; apply eqb_bool_eq; reflexivity.
+    reflexivity.
+  - intros E; inversion E; subst. rewrite !Z.eqb_refl.
+    repeat match goal with |- context [eqb_bool ?x ?x] =>
+      replace (eqb_bool x x) with true by (destruct x; reflexivity) end.
+    reflexivity.
 Qed.
 
 Lemma securedb_spec s : securedb s = true <-> secured s.
@@ -47,14 +50,14 @@ Lemma evict_guardb_spec j0 obs : evict_guardb j0 obs = true <-> evict_guard j0 o
 Proof.
   unfold evict_guardb, evict_guard. destruct (direct j0); cbn.
   - split; [intros _ D; discriminate|reflexivity].
-  - rewrite (forall_evictsb secured securedb obs securedb_spec). split; auto.
+  - rewrite (forall_evictsb secured securedb obs securedb_spec). split; [auto|intros H; apply H; reflexivity].
 Qed.
 
 Lemma evict_other_nodeb_spec j0 obs : evict_other_nodeb j0 obs = true <-> evict_other_node j0 obs.
 Proof.
   unfold evict_other_nodeb, evict_other_node. destruct (direct j0); cbn.
   - split; [intros _ D; discriminate|reflexivity].
-  - rewrite (forall_evictsb other_node other_nodeb obs other_nodeb_spec). split; auto.
+  - rewrite (forall_evictsb other_node other_nodeb obs other_nodeb_spec). split; [auto|intros H; apply H; reflexivity].
 Qed.
 
 Lemma nil_effs_spec (l : list effect) : match l with [] => true | _ => false end = true <-> l = [].
